@@ -789,5 +789,5 @@ def _enum_cases(tier):
 def subs(tier):
     return [
         Enumerated("enum", check_enum, cases=_enum_cases),
-        Generated("random", check_random, strategy=_cases(), quick=4000, thorough=100000),
+        Generated("random", check_random, strategy=_cases(), quick=3000, thorough=100000),
     ]
